@@ -1,6 +1,6 @@
 #!/bin/bash
 set -e
-export GOFLAGS=-mod=mod GOPROXY=off GOSUMDB=off GOTOOLCHAIN=local
+. "$(dirname "$(realpath "$0")")/../../goenv.sh"
 HERE=$(dirname "$(realpath "$0")")
 ROOT=$(realpath "$HERE/../../..")
 mkdir -p "$ROOT/.bin"
